@@ -149,7 +149,23 @@ def _filter_by_enumeration(ctx, s_fn, ifs: T.List[ast.AST], line: str, fields: T
     sname = status_names[0]
     codes = [x + y for x in STATUS_COLUMNS for y in STATUS_COLUMNS if x + y != "  "]
     wrong: T.List[T.Tuple[str, bool, bool]] = []
+    # further parameters of status() that the filter reads: every value a caller can pass is tried
+    extra = sorted({x.id for t in ifs for x in ast.walk(t) if isinstance(x, ast.Name) and x.id in s_fn.all_params and x.id not in (req, "self")})
+    extra_vals: T.Dict[str, T.List[T.Any]] = {}
+    for p_ in extra:
+        vals: T.Set[T.Any] = set()
+        for fq_, calls_ in ctx.effects.calls.items():
+            for node_, callee_ in calls_:
+                if callee_.fq == s_fn.fq and isinstance(node_, ast.Call):
+                    a_ = call_arg(node_, s_fn, p_)
+                    if a_ is None:
+                        a_ = s_fn.defaults.get(p_)
+                    vals |= {a_.value} if isinstance(a_, ast.Constant) else {True, False}
+        extra_vals[p_] = sorted(vals, key=repr) or [True, False]
+    import itertools as _it
+    combos = [dict(zip(extra, c_)) for c_ in _it.product(*[extra_vals[p_] for p_ in extra])] or [{}]
     for code in codes:
+      for combo in combos:
         for member in (True, False):
             class Sub(ast.NodeTransformer):
                 def visit_Compare(self, node: ast.Compare) -> ast.AST:
@@ -161,11 +177,13 @@ def _filter_by_enumeration(ctx, s_fn, ifs: T.List[ast.AST], line: str, fields: T
                 t2 = Sub().visit(copy.deepcopy(t))
                 ctx.require(not any(isinstance(x, ast.Name) and x.id == req for x in ast.walk(t2)), f"C11/R4: `{req}` is used outside a membership test")
                 try:
-                    kept = kept and bool(prog.fold(s_fn.module, t2, {sname: code}))
+                    kept = kept and bool(prog.fold(s_fn.module, t2, dict({sname: code}, **combo)))
                 except AnalysisError as ex:
                     raise AnalysisError(f"C11/R4: filter test `{unparse(t)[:70]}` cannot be decided for status {code!r}: {ex}")
             if kept != (member or code != "??"):
                 wrong.append((code, member, kept))
+                if combo and "combo" not in ctx.notes:
+                    ctx.notes["combo"] = {k_: repr(v_) for k_, v_ in combo.items()}
     ctx.check("R4", not wrong, f"VCSAPI.status keeps a line iff path in {req} or status != '??'  [decided for {len(codes)} status codes x 2]",
               "vcs.VCSAPI.status: filter differs from 'pattern file or not untracked'",
               f"{len(wrong)} of {2 * len(codes)} cases differ, e.g. status {wrong[0][0]!r} with the path {'in' if wrong[0][1] else 'not in'} {req} is "
@@ -201,7 +219,10 @@ def vcs_marker_rule(ctx, rule: str) -> None:
                     f"with commit = true the dirty check is skipped and files of a dirty tree are rewritten", loc=iu.loc(c),
                     witness={"layout": "git worktree add ../wt; cd ../wt  (.git is a file `gitdir: ...`)"}, what="is_usable: marker tested for existence only")
     if n_marker == 0:
-        ctx.observe("is_usable: no file-system test of the marker; detection rests on the is_usable command alone")
+        ctx.bad(rule, "vcs.VCSAPI.is_usable: the VCS is detected without testing for its marker in the project directory",
+                "`git rev-parse --git-dir` also succeeds in a sub-directory of a repository: `git status --porcelain` then prints paths relative to the repository root while the "
+                "configured paths are relative to the project directory, so a dirty pattern file is never recognised", loc=iu.loc(),
+                witness={"layout": "project in packages/core/ of a git repository", "flag": "--allow-dirty"}, what="is_usable: marker tested for existence only")
 
 
 def run(ctx) -> None:
@@ -334,6 +355,12 @@ def run(ctx) -> None:
                               "vcs.assert_not_dirty: status() is not asked about the configured files",
                               f"required_files=`{unparse(rf) if rf is not None else None}`", loc=a_fn.loc(v))
     ctx.require(d_name is not None, "assert_not_dirty no longer binds the result of vcs_api.status()")
+    rebinds = [st for st, _v in shapes.local_defs(a_fn, d_name)]
+    ctx.check("R2", len(rebinds) == 1, f"assert_not_dirty: `{d_name}` is the status result throughout (bound once)",
+              "vcs.assert_not_dirty: the list of dirty files is modified before the abort rules are applied",
+              f"`{unparse(rebinds[-1])[:80]}`: the pattern-file check and the dirty test then see only part of what `git status` reported "
+              f"(e.g. a list cut to the first 20 entries for logging)" if len(rebinds) > 1 else "", loc=a_fn.loc(rebinds[-1]) if rebinds else a_fn.loc(),
+              witness={"dirty files": "30 modified docs/*.md and a modified pattern file sorted after them", "flag": "--allow-dirty"})
     for n in ast.walk(a_fn.node):
         if isinstance(n, ast.Assign) and len(n.targets) == 1 and isinstance(n.targets[0], ast.Name):
             v = n.value
